@@ -52,6 +52,7 @@ type ObjObs struct {
 	NewPErr, NewPText string // px.New(type, positional...) then Reflect2
 	NewPBack          *Val
 	NewPDeep          bool
+	NewPOutside       bool // converted-back value contains something outside the universe of shapes
 	SingleHash        bool // the positional argument list is one Hash
 }
 
@@ -171,7 +172,7 @@ func runCase(cs *Case) *Obs {
 			ob.NewPErr, ob.NewPText = guarded(func() {
 				o3 := px.New(c, ot, args...)
 				back := c.Reflector().Reflect2(o3, rt)
-				ob.NewPDeep, ob.NewPBack, _ = deepEqual(cs.S, gv, cs.V, back, env.known)
+				ob.NewPDeep, ob.NewPBack, ob.NewPOutside = deepEqual(cs.S, gv, cs.V, back, env.known)
 			})
 		}
 	})
@@ -419,7 +420,7 @@ func (o *Obs) gallina(cs *Case) string {
 		if ob.NewHErr == "" && ob.NewHBack != nil {
 			nh = ob.NewHBack.Gallina(cs.S)
 		}
-		if ob.NewPErr == "" && ob.NewPBack != nil {
+		if ob.NewPErr == "" && ob.NewPBack != nil && !ob.NewPOutside {
 			np = ob.NewPBack.Gallina(cs.S)
 		}
 		b.WriteString("(Some (mkObjObs " + lib.GList(attrs, "str") + " " + lib.GList(ob.Gets, "value") + " " + ob.InitHash + "\n       " +
